@@ -229,6 +229,38 @@ func c12Corpus(c *Check) []CorpusProg {
 		CorpusProg{"hand/rejected-scope", "if true {\n\ty := 1\n}\nprint(y)\n"},
 		CorpusProg{"hand/rejected-syntax", "x := (1 + \nprint(x)\n"},
 	)
+	// every statement form as the LAST statement of the file (with a final newline here; the
+	// drop-final-newline, trailing-comment-at-eof and CRLF operators produce the other endings)
+	pre := "x := 1\ns := []string{\"a\"}\nfunc two() (int, string) {\n\treturn 1, \"t\"\n}\n"
+	for i, last := range []string{
+		"var y int", "var y string", "var y bool", "var y []string", "var y []int", "var y, z int", "var y int = 3", "var y, z = 1, \"b\"",
+		"y := 2", "y, z := two()", "x = 2", "x++", "x--", "x += 2", "s[1] = \"b\"", "print(x)", "print()", "two()", "@true()", "y := @echo(\"a\")",
+		"if x == 1 {\n\tprint(1)\n}", "if x == 1 {\n\tprint(1)\n} else {\n\tprint(2)\n}", "for x < 3 {\n\tx++\n}", "for i := 0; i < 2; i++ {\n}", "for {\n\tbreak\n}",
+		"for i, v := range s {\n\tprint(i, v)\n}", "switch x {\ncase 1:\n\tprint(1)\n}", "switch {\ndefault:\n}", "func g() {\n}", "func g() int {\n\treturn 1\n}",
+		"y := s[0]", "y := \"abc\"[1:2]", "y := len(s)", "y := -x", "y := !true", "y := (x)", "y := []int{}", "y := x == 1 && true", "y := `raw`", "panic(\"p\")", "y := itoa(x)", "y := exists(\"f\")",
+		"write(\"f\", \"d\")", "y, e := read(\"f\")", "y := input()", "y := copy(s, s)",
+		"var", "var y", "y :=", "x +", "if x == 1 {", "func", "print(", "s[", "for", "switch x {\ncase 1:", "two(", "y := []int{",
+	} {
+		progs = append(progs, CorpusProg{fmt.Sprintf("last/%d", i), pre + last + "\n"})
+	}
+	progs = append(progs,
+		CorpusProg{"last/import-only", "import \"strings\"\n"},
+		CorpusProg{"last/import-group-only", "import (\n\t\"strings\"\n)\n"},
+		CorpusProg{"last/single-var", "var y int\n"},
+		CorpusProg{"last/single-print", "print(1)\n"},
+		CorpusProg{"last/empty", "\n"},
+		CorpusProg{"last/comment-only", "// nothing\n"},
+	)
+	// lexemes that contain line breaks, blanks and comment markers themselves
+	progs = append(progs,
+		CorpusProg{"lexeme/interpreted-multiline", "help := \"usage:\n  tool [opts]\n\tmore\n\"\nprint(help)\nprint(len(help))\n"},
+		CorpusProg{"lexeme/raw-multiline", "help := `usage:\n  tool [opts]\n\n\tmore  \n`\nprint(help)\nprint(len(help))\n"},
+		CorpusProg{"lexeme/comment-markers-in-strings", "a := \"// not a comment\"\nb := \"/* neither */\"\nc := `// raw`\nd := \"x /* \" + \" */ y\"\nprint(a, b, c, d)\n"},
+		CorpusProg{"lexeme/multiline-block-comment", "x := 1 /* spans\nlines\n\tand more */ + 2\nprint(x)\n/*\n * header\n */\nprint(x)\n"},
+		CorpusProg{"lexeme/blanks-in-strings", "a := \"  lead\"\nb := \"trail  \"\nc := \" \\t \"\nd := \"tab\there\"\nprint(a + b + c + d)\n"},
+		CorpusProg{"lexeme/multiline-in-call", "print(\"a\nb\", `c\nd`, \"e\")\nx := []string{\"p\nq\", `r\ns`}\nprint(len(x[0]), len(x[1]))\n"},
+		CorpusProg{"lexeme/multiline-in-function", "func f(a string) string {\n\treturn a + \"\n\tindented\n\"\n}\nprint(f(\"s\n\"))\n"},
+	)
 	return progs
 }
 
